@@ -69,7 +69,7 @@ pub fn run(rep: &Report) {
     rep.explore(&C14Diff, rep.tier.pick(3000, 50_000), 500);
     // > 1000 containers: incremental container rebuild
     rep.run_regressions(&ManyContainers);
-    rep.explore(&ManyContainers, rep.tier.pick(64, 2000), 80);
+    rep.explore(&ManyContainers, rep.tier.pick(200, 5000), 80);
     let inc = crate::runner::path_counters().get("container_rebuild_incremental").copied().unwrap_or(0);
     rep.extra("incremental_container_rebuilds_entered", serde_json::json!(inc));
 }
@@ -111,7 +111,9 @@ impl Stage for ManyContainers {
         let kind = *s.pick(&[ContKind::Vec, ContKind::Set, ContKind::MultiSet, ContKind::Vec]);
         let sig = mc_sig(kind);
         let lit = crate::pgen::cont_ctor(kind).to_string();
-        let n = 1050 + s.below(400) as i64;
+        // half of the cases are big enough for the incremental (val_index driven) rebuild, the other half is small and
+        // cheap: those mainly feed the 4-thread cut-off-0 child (parallel container rebuild needs no size)
+        let n = if s.bool() { 1050 + s.below(400) as i64 } else { 10 + s.below(40) as i64 };
         let num = |i: i64| Term::App(0, vec![Term::I(i)]);
         let leaf = |k: usize| Term::App(3 + k, vec![]);
         let cont = |es: Vec<Term>| Term::Prim(lit.clone(), es);
@@ -165,7 +167,7 @@ impl Stage for ManyContainers {
         });
         let n_ops = 3 + s.below(7);
         for _ in 0..n_ops {
-            match s.below(8) {
+            match s.below(9) {
                 0..=2 => cmds.push(Cmd::Act(Action::Union(leaf(s.below(4)), leaf(s.below(4))))),
                 3 => cmds.push(Cmd::Act(Action::Union(leaf(s.below(4)), num(s.range(0, 5))))),
                 4 => {
@@ -173,8 +175,8 @@ impl Stage for ManyContainers {
                     let es = (0..k).map(|_| leaf(s.below(4))).collect();
                     cmds.push(Cmd::Act(Action::Expr(Term::App(1, vec![cont(es)]))));
                 }
-                5 => cmds.push(Cmd::RunN { rs: Some(1), n: 1, until: vec![] }),
-                6 => cmds.push(Cmd::Check(vec![Fact::Eq(Term::App(1, vec![cont(vec![leaf(s.below(4))])]), Term::App(1, vec![cont(vec![leaf(s.below(4))])]))])),
+                5 | 6 => cmds.push(Cmd::RunN { rs: Some(1), n: 1, until: vec![] }),
+                8 => cmds.push(Cmd::Check(vec![Fact::Eq(Term::App(1, vec![cont(vec![leaf(s.below(4))])]), Term::App(1, vec![cont(vec![leaf(s.below(4))])]))])),
                 _ => cmds.push(Cmd::Act(Action::Union(num(s.range(0, 5)), num(s.range(0, 5))))),
             }
         }
